@@ -302,6 +302,9 @@ func CheckContent(o *vrt.Obs, specs []MsgSpec, inbox map[string][]byte, receiver
 			o.Violate("content-independent:unparseable", "station %s: the delivered message %s is not well-formed for the independent reader: %v", receiver, m.MID, err)
 			continue
 		}
+		if subj, _ := ref.Get("Subject"); subj != m.Subject {
+			o.Violate("content-independent:subject", "station %s: Subject of the delivered message %s is %q, queued %q", receiver, m.MID, subj, m.Subject)
+		}
 		switch {
 		case !bytes.Equal(ref.Body, m.Body):
 			o.Violate("content-independent:body", "station %s: body of the delivered message %s (%d bytes) differs from the queued body (%d bytes, %s)", receiver, m.MID, len(ref.Body), len(m.Body), m.Shape)
